@@ -27,13 +27,19 @@ import (
 )
 
 type Case struct {
-	K    string `json:"k"`
-	Seed uint64 `json:"seed"`
+	K    string  `json:"k"`
+	Seed uint64  `json:"seed"`
+	Rv   *revalX `json:"rv,omitempty"` // kind reval: the decisions of the history (reval.go)
 }
 
 var kindsFlag = flag.String("kinds", "refresh,refresh,refresh,switch", "case kinds to generate")
 
+var enumFlag = flag.Bool("enum", true, "run the enumerated re-validation histories (reval.go) before the random cases")
+
 func genCase(r *gen.Rand, i int) any {
+	if *enumFlag && i < len(revalTable) {
+		return revalTable[i]
+	}
 	return Case{K: gen.Pick(r, strings.Split(*kindsFlag, ",")), Seed: r.U64() ^ ro.SeedMix()}
 }
 
@@ -437,6 +443,8 @@ func main() {
 				return runRefresh(c)
 			case "switch":
 				return runSwitch(c)
+			case "reval":
+				return runReval(c)
 			}
 			return obs.Result{Kind: "other"}
 		},
